@@ -660,6 +660,33 @@ func (s *Server) KillIdle() int {
 	return n
 }
 
+// AbortLeftovers is the operator cleaning up between episodes: every prepared
+// XA branch (detached or still attached to a session) and every transaction
+// left open is rolled back and its locks released, so that what one episode
+// left behind (and was judged for) does not block the next one. It returns
+// the number of branches / transactions it removed.
+func (s *Server) AbortLeftovers() int {
+	s.mu.Lock()
+	defer s.mu.Unlock()
+	n := 0
+	for id, t := range s.xaPrepared {
+		s.rollbackTxn(t)
+		delete(s.xaPrepared, id)
+		n++
+	}
+	for _, c := range s.conns {
+		if c.noHook || c.closed || c.txn == nil {
+			continue
+		}
+		if c.txn.explicit || c.txn.xaState != "" {
+			s.rollbackTxn(c.txn)
+			c.txn = nil
+			n++
+		}
+	}
+	return n
+}
+
 func (s *Server) OpenTxnCount() int {
 	s.mu.Lock()
 	defer s.mu.Unlock()
